@@ -165,6 +165,8 @@ fn gen_def(src: &mut Src, m: Mutation) -> (Def, String) {
         what = "field replaced by an array of deep structs".to_string();
         derives = "Epserde, Clone, Debug";
     }
+    // the attribute order is a generated choice too (shared by the twin and its mutant)
+    let swapped = src.chance(1, 2);
     let attrs = match m {
         Mutation::DropReprC => {
             what = "repr(C) dropped".into();
@@ -176,9 +178,15 @@ fn gen_def(src: &mut Src, m: Mutation) -> (Def, String) {
         }
         Mutation::BothAttrs => {
             what = "declared both zero_copy and deep_copy".into();
-            "#[repr(C)]\n#[zero_copy]\n#[deep_copy]".to_string()
+            if swapped { "#[deep_copy]\n#[zero_copy]\n#[repr(C)]".to_string() } else { "#[repr(C)]\n#[zero_copy]\n#[deep_copy]".to_string() }
         }
-        _ => "#[repr(C)]\n#[zero_copy]".to_string(),
+        _ => {
+            if swapped {
+                "#[zero_copy]\n/// documented\n#[repr(C)]".to_string()
+            } else {
+                "#[repr(C)]\n#[zero_copy]".to_string()
+            }
+        }
     };
     let names = ["a", "b", "c", "d", "e"];
     let (body, value) = if is_enum {
